@@ -811,9 +811,13 @@ class PartitionedFacts(Problem):
             hit = any(isinstance(x, ast.Name) and x.id == self.flag and isinstance(x.ctx, ast.Store) for t in a.targets for x in ast.walk(t))
             if hit:
                 simple = any(isinstance(t, ast.Name) and t.id == self.flag for t in a.targets)
+                if simple and isinstance(a.value, ast.Constant) and a.value.value is None:
+                    return "N"          # exactly None (a class of its own: `is None` tests decide it)
                 t_ = self.truth_of(a.value) if simple else None
                 return "?" if t_ is None else ("T" if t_ else "F")
         elif isinstance(a, ast.AnnAssign) and isinstance(a.target, ast.Name) and a.target.id == self.flag and a.value is not None:
+            if isinstance(a.value, ast.Constant) and a.value.value is None:
+                return "N"
             t_ = self.truth_of(a.value)
             return "?" if t_ is None else ("T" if t_ else "F")
         elif isinstance(a, ast.AugAssign) and isinstance(a.target, ast.Name) and a.target.id == self.flag:
@@ -824,19 +828,38 @@ class PartitionedFacts(Problem):
         out = {}
         a = n.ast
         want = None
+        none_test = None          # True: the edge implies `flag is None`; False: `flag is not None`
         if n.kind == "test" and label in ("T", "F") and a is not None:
             e, pos = a, label == "T"
             while isinstance(e, ast.UnaryOp) and isinstance(e.op, ast.Not):
                 e, pos = e.operand, not pos
             if isinstance(e, ast.Name) and e.id == self.flag:
                 want = "T" if pos else "F"
+            elif isinstance(e, ast.Compare) and len(e.ops) == 1 and isinstance(e.left, ast.Name) and e.left.id == self.flag \
+                    and isinstance(e.comparators[0], ast.Constant) and e.comparators[0].value is None \
+                    and isinstance(e.ops[0], (ast.Is, ast.IsNot, ast.Eq, ast.NotEq)):
+                none_test = pos == isinstance(e.ops[0], (ast.Is, ast.Eq))
         for k, z in state.items():
-            if want is not None and k != "?" and k != want:
+            if want == "T" and k in ("F", "N", "F?"):
+                continue
+            if want == "F" and k == "T":
+                continue
+            if none_test is True and k in ("T", "F"):
+                continue
+            if none_test is False and k == "N":
                 continue
             z2 = self.base.edge(n, z, label, succ)
             if z2 is None:
                 continue
-            k2 = want if want is not None else k
+            k2 = k
+            if want == "T":
+                k2 = "T"
+            elif want == "F" and k == "?":
+                k2 = "F?"          # falsy, possibly None
+            elif none_test is True:
+                k2 = "N"
+            elif none_test is False and k == "F?":
+                k2 = "F"
             out[k2] = out[k2].join(z2) if k2 in out else z2
         if n.kind == "stmt" and label != "exc" and a is not None:
             cls = self._flag_assigned(a)
